@@ -6,15 +6,20 @@ batch completes) and the safety properties (always-run jobs are never cancelled 
 attempt and only that attempt completes it, the current attempt changes only via Ready) for a basket of programs;
 (2) B1: the same state graphs are replayed on the real stored procedures and front end (full state comparison);
 (3) the real canceller / scheduler selection queries are evaluated in every visited state of the walks and must return exactly
-the jobs for which the specification's loop actions (CancelReady, CancelCreating, CancelRunning, Orphan, SchedSelect) are enabled.
+the jobs for which the specification's loop actions (CancelReady, CancelCreating, CancelRunning, Orphan, SchedSelect) are enabled;
+(4) overlapping transactions (duplicate and conflicting requests inside one another, DESIGN.md 10.8);
+(5) the worker <-> driver protocol at the level of HTTP requests: specs/batchdb/DriverApi.tla (activation / bearer tokens, table and
+in-memory instance state, requests in two pieces, driver restart) refines BatchDB (DriverApiRef), i.e. BatchDB's assumption that reports
+come only from activated instances is a checked property of the decorators and handlers of batch.driver.main; its state graphs are
+replayed on the real route table with real Instance objects and the real InstanceCollectionManager.
 """
 from checks import _batchdb as B
 
 LEVEL = "model_checking"
 MANIFEST = {
-    "technique": "TLA+ spec BatchDBLive: TLC liveness checking under weak fairness + safety invariants; state-graph replay on the real stored procedures (MiniMySQL) and enabledness comparison of the real scheduler/canceller selection SQL with the specification's loop actions",
+    "technique": "TLA+ spec BatchDBLive: (+ DriverApi: the driver HTTP API refines BatchDB) TLC liveness checking under weak fairness + safety invariants; state-graph replay on the real stored procedures (MiniMySQL) and enabledness comparison of the real scheduler/canceller selection SQL with the specification's loop actions",
     "text": "All interleavings of the driver loops, worker reports (duplicated, late, stale) and cancellation for small batches are explored; under fairness all-updates-committed leads to every job terminal and the batch complete, also after cancellation; always-run jobs are never cancelled; only the current attempt completes a running job. The code is tied to the specification by replaying the graph on the real SQL and by checking that the driver's real selection queries select exactly the jobs the specification's loop actions are enabled for.",
-    "note": "Liveness is a property of the specification (fairness assumptions stated in BatchDBLive.tla); instance failures are excluded from the liveness configurations; the autoscaler is not modelled (it creates instances, which the model has from the start).",
+    "note": "Driver API stage: task manager, resource manager, instance config, job_config and the HTTP client to the worker are faked; an authenticated worker reporting about attempts never dispatched to it is outside what the API can refuse (recorded as a note, feature `rogue`). Liveness is a property of the specification (fairness assumptions stated in BatchDBLive.tla); instance failures are excluded from the liveness configurations; the autoscaler is not modelled (it creates instances, which the model has from the start).",
     "design_ref": "DESIGN.md section 5, C39",
 }
 
